@@ -79,18 +79,22 @@ def readPath (layers : List VPath) (p : Str) : M VPath :=
   if p = [] then pure (writeLayer layers)
   else do
     let wo ← M.ret (whiteoutPath layers p)
-    if (← wo.exists_) then M.failK .fileNotFound
-    else
-      match (← firstExisting p layers) with
+    let marked ← wo.exists_
+    if marked then M.failK .fileNotFound
+    else do
+      let found ← firstExisting p layers
+      match found with
       | some lp => pure lp
-      | none =>
+      | none => do
         let rp ← M.ret ((writeLayer layers).join (tail1 p))
-        if !(← rp.exists_) then M.failK .fileNotFound else pure rp
+        let ex ← rp.exists_
+        if !ex then M.failK .fileNotFound else pure rp
 
 /-- `exists` (overlay.rs) -/
 def exists_ (layers : List VPath) (p : Str) : M Bool := do
   let wo ← M.ret (whiteoutPath layers p)
-  if (← wo.exists_) then pure false
+  let marked ← wo.exists_
+  if marked then pure false
   else fun w =>
     match readPath layers p w with
     | (.ok q, w') => q.exists_ w'
@@ -101,22 +105,23 @@ def exists_ (layers : List VPath) (p : Str) : M Bool := do
 /-- `ensure_has_parent` (overlay.rs:65-75) -/
 def ensureHasParent (layers : List VPath) (p : Str) : M Unit :=
   if '/' ∈ p then do
-    let parent := parentInternal p
-    if (← exists_ layers parent) then
-      let wp ← M.ret (writePath layers parent)
+    let ex ← exists_ layers (parentInternal p)
+    if ex then do
+      let wp ← M.ret (writePath layers (parentInternal p))
       wp.createDirAll
     else M.failK .other
   else M.failK .other
 
-/-- union of the listings of all layers that have the directory -/
+/-- union of the listings of all layers in which the path is a directory -/
 def mergeListings (actual : Str) : List VPath → List Str → M (List Str)
   | [], acc => pure acc
   | l :: rest, acc => do
     let lp ← M.ret (l.join actual)
-    if (← lp.isDir) then
+    let isd ← lp.isDir
+    if isd then do
       let cs ← lp.readDir
-      let names := cs.map fun c => filenameInternal c.path
-      mergeListings actual rest (names.foldl (fun a n => if n ∈ a then a else a ++ [n]) acc)
+      mergeListings actual rest
+        ((cs.map fun c => filenameInternal c.path).foldl (fun a n => if n ∈ a then a else a ++ [n]) acc)
     else mergeListings actual rest acc
 
 def stripWo (name : Str) : Option Str :=
@@ -124,7 +129,8 @@ def stripWo (name : Str) : Option Str :=
 
 def clearWhiteout (layers : List VPath) (p : Str) : M Unit := do
   let wo ← M.ret (whiteoutPath layers p)
-  if (← wo.exists_) then wo.removeFile else pure ()
+  let ex ← wo.exists_
+  if ex then wo.removeFile else pure ()
 
 def addWhiteout (layers : List VPath) (p : Str) : M Unit := do
   let wo ← M.ret (whiteoutPath layers p)
@@ -134,64 +140,113 @@ def addWhiteout (layers : List VPath) (p : Str) : M Unit := do
 
 /-- `read_dir` (overlay.rs) -/
 def readDir (layers : List VPath) (p : Str) : M (List Str) := do
-  let actual := if p ≠ [] then tail1 p else p
   let rp ← readPath layers p
-  if !(← rp.exists_) then M.failK .fileNotFound
-  else if !(← rp.isDir) then M.failK .other
-  else
-    let entries ← mergeListings actual layers []
-    -- the bookkeeping directory is not an entry of the overlay
-    let entries := if p = [] then entries.filter (fun n => n ≠ woDir) else entries
-    let wp ← M.ret ((writeLayer layers).join (woDir ++ p))
-    if (← wp.exists_) then
-      let marks ← wp.readDir
-      let removed := marks.filterMap fun m => stripWo (filenameInternal m.path)
-      pure (entries.filter fun n => n ∉ removed)
-    else pure entries
+  let ex ← rp.exists_
+  if !ex then M.failK .fileNotFound
+  else do
+    let isd ← rp.isDir
+    if !isd then M.failK .other
+    else do
+      let entries ← mergeListings (if p ≠ [] then tail1 p else p) layers []
+      let wp ← M.ret ((writeLayer layers).join (woDir ++ p))
+      let wex ← wp.exists_
+      if wex then do
+        let marks ← wp.readDir
+        -- the bookkeeping directory is not an entry of the overlay; marked names are removed
+        pure ((if p = [] then entries.filter (fun n => n ≠ woDir) else entries).filter
+          fun n => n ∉ marks.filterMap fun m => stripWo (filenameInternal m.path))
+      else pure (if p = [] then entries.filter (fun n => n ≠ woDir) else entries)
+
+/-- `create_dir` -/
+def createDir (layers : List VPath) (p : Str) : M Unit := do
+  ensureHasParent layers p
+  let ex ← exists_ layers p
+  if ex then do
+    let q ← readPath layers p
+    let md ← q.metadata
+    M.failK (if md.ftype = .file then .fileExists else .dirExists)
+  else do
+    let wp ← M.ret (writePath layers p)
+    wp.createDir
+    clearWhiteout layers p
+
+/-- the type check of `create_file`: refuse a path that is a directory in some layer -/
+def refuseDir (layers : List VPath) (p : Str) : M Unit := do
+  let ex ← exists_ layers p
+  if ex then do
+    let q ← readPath layers p
+    let md ← q.metadata
+    if md.ftype = .dir then M.failK .other else pure ()
+  else pure ()
+
+/-- `create_file` -/
+def createFile (layers : List VPath) (p : Str) : M WHandle := do
+  ensureHasParent layers p
+  refuseDir layers p
+  let wp ← M.ret (writePath layers p)
+  let h ← wp.createFile
+  clearWhiteout layers p
+  pure h
+
+/-- the copy-up of `append_file` -/
+def copyUp (layers : List VPath) (p : Str) (wp : VPath) : M Unit := do
+  let ex ← wp.exists_
+  if !ex then do
+    ensureHasParent layers p
+    let rp ← readPath layers p
+    let isf ← rp.isFile
+    if !isf then M.failK .other
+    else rp.copyFile wp
+  else pure ()
+
+/-- `append_file` -/
+def appendFile (layers : List VPath) (p : Str) : M WHandle := do
+  let wp ← M.ret (writePath layers p)
+  copyUp layers p wp
+  wp.appendFile
+
+/-- `remove_file` -/
+def removeFile (layers : List VPath) (p : Str) : M Unit := do
+  let _ ← readPath layers p
+  let wp ← M.ret (writePath layers p)
+  let ex ← wp.exists_
+  (if ex then wp.removeFile else pure ())
+  addWhiteout layers p
+
+/-- `remove_dir` -/
+def removeDir (layers : List VPath) (p : Str) : M Unit := do
+  let _ ← readPath layers p
+  let l ← readDir layers p
+  if l ≠ [] then M.failK .other
+  else do
+    let wp ← M.ret (writePath layers p)
+    let ex ← wp.exists_
+    (if ex then wp.removeDir else pure ())
+    addWhiteout layers p
 
 def fs (layers : List VPath) : FS where
   readDir p := readDir layers p
-  createDir p := do
-    ensureHasParent layers p
-    if (← exists_ layers p) then
-      let md ← (← readPath layers p).metadata
-      M.failK (if md.ftype = .file then .fileExists else .dirExists)
-    else
-      (← M.ret (writePath layers p)).createDir
-      clearWhiteout layers p
-  openFile p := do (← readPath layers p).openFile
-  createFile p := do
-    ensureHasParent layers p
-    if (← exists_ layers p) then
-      let md ← (← readPath layers p).metadata
-      if md.ftype = .dir then M.failK .other
-    let h ← (← M.ret (writePath layers p)).createFile
-    clearWhiteout layers p
-    pure h
-  appendFile p := do
+  createDir p := createDir layers p
+  openFile p := do
+    let q ← readPath layers p
+    q.openFile
+  createFile p := createFile layers p
+  appendFile p := appendFile layers p
+  metadata p := do
+    let q ← readPath layers p
+    q.metadata
+  setCreationTime p t := do
     let wp ← M.ret (writePath layers p)
-    if !(← wp.exists_) then
-      ensureHasParent layers p
-      let rp ← readPath layers p
-      if !(← rp.isFile) then M.failK .other
-      rp.copyFile wp
-    wp.appendFile
-  metadata p := do (← readPath layers p).metadata
-  setCreationTime p t := do (← M.ret (writePath layers p)).setCreationTime t
-  setModificationTime p t := do (← M.ret (writePath layers p)).setModificationTime t
-  setAccessTime p t := do (← M.ret (writePath layers p)).setAccessTime t
+    wp.setCreationTime t
+  setModificationTime p t := do
+    let wp ← M.ret (writePath layers p)
+    wp.setModificationTime t
+  setAccessTime p t := do
+    let wp ← M.ret (writePath layers p)
+    wp.setAccessTime t
   exists_ p := exists_ layers p
-  removeFile p := do
-    let _ ← readPath layers p
-    let wp ← M.ret (writePath layers p)
-    if (← wp.exists_) then wp.removeFile
-    addWhiteout layers p
-  removeDir p := do
-    let _ ← readPath layers p
-    if (← readDir layers p) ≠ [] then M.failK .other
-    let wp ← M.ret (writePath layers p)
-    if (← wp.exists_) then wp.removeDir
-    addWhiteout layers p
+  removeFile p := removeFile layers p
+  removeDir p := removeDir layers p
   copyFile _ _ := M.failK .notSupported
   moveFile _ _ := M.failK .notSupported
   moveDir _ _ := M.failK .notSupported
